@@ -7,4 +7,4 @@ CONSTANTS
   Junk = {0, 5}
   SaveRestore = TRUE
   CallBuffers = TRUE
-INVARIANT ImplIsSubstitutionButF48
+INVARIANT ImplIsSubstitution
